@@ -23,7 +23,7 @@ RULE = (
     "Hypothesis RuleBasedStateMachine. Each history draws a pool of 3-6 inputs: generated programs (with and without "
     "macros; different programs reuse the same macro / label / coroutine / op names), programs with one injected "
     "static error (the call raises midway), multi-file macro workspaces (main file and its imported files, each also compiled as a top-level file with ONE compiler object per workspace), routine sets chosen to exercise the decompiler's memo table (nested loops, then switches with empty cases), and SSB routine sets of strata 1-3 (incl. ones that take the SsbScript "
-    "fallback). Rules: compile with a fresh compiler; compile the SsbScript text of a routine set with the SsbScript compiler (fresh object, or ONE shared object that is also handed truncated texts which it rejects); compile with ONE shared compiler instance; decompile fresh "
+    "fallback). Rules: compile with a fresh compiler; compile the SsbScript text of a routine set with the SsbScript compiler (fresh object, or ONE shared object that is also handed truncated texts which it rejects); compile with ONE shared compiler instance; compile the main files of two or three project directories (same import name, relative lookup path, different library files) with ONE compiler object; decompile fresh "
     "objects; decompile the SAME op objects again; call convert() twice on the same decompiler; SsbScript-decompile the "
     "same op objects after the ExplorerScript decompiler used them; a sweep that decompiles every nested-loop input and then every empty-case-switch input of the pool; gc.collect(). Model: the result of every input "
     "(ops, offsets, routine table, text, serialized source maps, or the exception type and message) computed in a FRESH "
@@ -39,7 +39,7 @@ CASES = {"quick": 160, "thorough": 3000}
 SHARDS = 16
 NO_SHRINK = True  # the state machine run shrinks itself
 
-RULES = ["compile_ssbscript_shared", "compile_fresh", "compile_shared", "decompile_fresh", "decompile_same_objects", "convert_twice", "ssbs_same_objects", "compile_ssbscript", "ws_main_fresh", "ws_main_shared", "ws_lib_shared", "memo_sweep", "gc"]
+RULES = ["two_projects_shared", "compile_ssbscript_shared", "compile_fresh", "compile_shared", "decompile_fresh", "decompile_same_objects", "convert_twice", "ssbs_same_objects", "compile_ssbscript", "ws_main_fresh", "ws_main_shared", "ws_lib_shared", "memo_sweep", "gc"]
 
 _MODEL_CACHE: dict[str, dict] = {}
 
@@ -167,6 +167,8 @@ class HistoryRunner:
                     if f is not None:
                         return f
             return None
+        if rule_name == "two_projects_shared":
+            return self._two_projects(i)
         if rule_name.startswith("ws_"):
             k = self._idx(i, ("ws",))
             if k is None:
@@ -284,6 +286,43 @@ class HistoryRunner:
             return Failure(f"input_objects_changed:{rule_name}", f"after {rule_name} the caller's ops differ: {canon.first_diff(ref['canon'], now, 'ops')}\nsteps={self.steps}")
         return r
 
+    def _two_projects(self, i):
+        """ONE compiler object (with RELATIVE lookup paths, which are resolved against the importing file) compiles the
+        main files of two project directories that both import "common.exps" through the lookup path, each project with
+        its own lib/common.exps; every result must equal that of a new compiler object."""
+        import shutil
+
+        from explorerscript.ssb_converting.ssb_compiler import ExplorerScriptSsbCompiler
+        from vf import spec_tables as T
+
+        base = f"/tmp/vf-c11-ws/two-{os.getpid()}-{i}"
+        try:
+            mains = []
+            for k, proj in enumerate(["one", "two", "three"][: 2 + i % 2]):
+                d = os.path.join(base, proj)
+                os.makedirs(os.path.join(d, "lib"), exist_ok=True)
+                with open(os.path.join(d, "lib", "common.exps"), "w") as fh:
+                    fh.write(f"macro hello($a) {{ From_{proj}_{i}($a); " + ("Extra(); " * k) + "}\n")
+                main = os.path.join(d, "main.exps")
+                text = 'import "common.exps";\n' + f"def 0 {{ ~hello({k + i}); end; }}\n"
+                with open(main, "w") as fh:
+                    fh.write(text)
+                mains.append((main, text))
+            shared = ExplorerScriptSsbCompiler(T.PERF_VAR, ["lib"])
+            order = [0, 1, 0] + ([2, 1] if len(mains) > 2 else [])
+            for j in order:
+                main, text = mains[j]
+                want = results.compile_result(text, main, compiler=ExplorerScriptSsbCompiler(T.PERF_VAR, ["lib"]))
+                got = results.compile_result(text, main, compiler=shared)
+                self._note(0, "raised" in got)
+                if want != got:
+                    d = canon.first_diff(want, got, "result")
+                    return Failure("history_dependent:two_projects_shared:" + ("exception" if ("raised" in want) != ("raised" in got) else "ops"),
+                                   f"project {j}: a new compiler object and the shared one disagree: {d[:600]}\nsteps={self.steps}")
+            return None
+        finally:
+            shutil.rmtree(base, ignore_errors=True)
+
     def _note(self, k, raised):
         if self.seen_inputs and k in self.seen_inputs[:-1] and self.seen_inputs[-1] != k:
             self.flags.add("repeat_after_other")
@@ -385,6 +424,10 @@ def run_shard(tier, seed, shard, n_cases, known_b):
         @rule(i=st.integers(0, 20))
         def compile_ssbscript_shared(self, i):
             self._do("compile_ssbscript_shared", i)
+
+        @rule(i=st.integers(0, 40))
+        def two_projects_shared(self, i):
+            self._do("two_projects_shared", i)
 
         @rule()
         def memo_sweep(self):
